@@ -119,6 +119,17 @@ def generate(seed, tier, k):
         axes = list(r.choice(list(itertools.permutations(range(dim), 2))))
         doc["bc"] = {"case": "biaxial", "clampes": [False, False], "sym": True, "axes": axes}
         doc["steps"] = [{"ramp": [{"target": "bc:move", "values": [round(e1 * mesh["b"][axes[0]] * x, 6) for x in t]}, {"target": "bc:move2", "values": [round(e2 * mesh["b"][axes[1]] * x, 6) for x in t]}]}]
+    fine = pick(seed, "fine-ramp", 5)
+    if fine in (0, 1) and case != "patch":
+        # a finely resolved section at the end of the ramp (increments of a few millionths of the
+        # value), or - fine == 1 - a long ramp of more than a dozen equal increments
+        for rr_ in doc["steps"][0]["ramp"]:
+            v_ = rr_["values"]
+            if fine == 0:
+                rr_["values"] = v_ + [round(float(v_[-1] * (1 + 3e-6 * i_)), 12) for i_ in (1, 2, 3)]
+            else:
+                top_ = v_[-1] if v_[-1] != 0 else max(v_, key=abs)
+                rr_["values"] = [round(float(top_ * (i_ + 1) / 14), 8) for i_ in range(14)]
     doc["newton"] = {}
     if r.random() < 0.3:
         doc["newton"]["tol"] = r.choice([1e-8, 1e-10, 1e-6])
